@@ -33,6 +33,13 @@ func q(p *Pkg) string { return "«" + p.Path + "»." }
 
 func useT(kind UseKind, t *Type, field string) *Use { return &Use{Kind: kind, T: t, Field: field} }
 func refT(t *Type, sub string) *Use                  { return &Use{Kind: UTypeRef, T: t, Sub: sub} }
+// composite: the type is mentioned inside a composite type ([]T, [N]T, map[K]*T, ...T) of a variable declaration,
+// field, parameter/result or composite literal - still a use of the type there.
+func composite(u *Use) *Use {
+	u.Feature = "inside-composite-type"
+	return u
+}
+
 func free(u *Use, cats ...string) *Use {
 	if u.Free == nil {
 		u.Free = map[string]bool{}
@@ -214,8 +221,8 @@ func (b *B) CtorNode(t *Type, name string, f *File) (*Node, *Func) {
 func (b *B) ListNode(t *Type, f *File) (*Node, *Func) {
 	fn := &Func{Pkg: t.Pkg, Name: "List" + t.Name, File: f}
 	n := &Node{Fn: fn, Doc: fnDoc(fn)}
-	n.Pre = []*Line{b.tl("func "+fn.Name+"() []*%T {", free(refT(t, SubOther), TONL))}
-	n.Kids = []*Node{b.tstmt("return []*%T{"+q(t.Pkg)+"New"+t.Name+"()}", free(refT(t, SubOther), TONL))}
+	n.Pre = []*Line{b.tl("func "+fn.Name+"() []*%T {", composite(refT(t, SubResult)))}
+	n.Kids = []*Node{b.tstmt("return []*%T{"+q(t.Pkg)+"New"+t.Name+"()}", composite(refT(t, SubLit)))}
 	n.Post = []*Line{b.line("}")}
 	return n, fn
 }
@@ -432,7 +439,7 @@ func immTemplates() []Tmpl {
 	ts = append(ts, Tmpl{Name: "assign-map-elem", Cat: IMM, Kind: "struct", FreeT: true, Make: func(b *B, t *Type, env *Env) []*Node {
 		x := b.v()
 		c, u := callNew(t, env)
-		return []*Node{b.tstmt(x+" := map[string]*%T{\"k\": "+c+"}", u, free(refT(t, SubOther), TONL)), b.stmt(x+"[\"k\"].F++", useT(UFieldIncDec, t, "F"))}
+		return []*Node{b.tstmt(x+" := map[string]*%T{\"k\": "+c+"}", u, composite(refT(t, SubLit))), b.stmt(x+"[\"k\"].F++", useT(UFieldIncDec, t, "F"))}
 	}})
 	ts = append(ts, Tmpl{Name: "assign-nested-holder", Cat: IMM, Kind: "struct", Make: func(b *B, t *Type, env *Env) []*Node {
 		x := b.v()
@@ -513,7 +520,7 @@ func ctorTemplates() []Tmpl {
 	}})
 	ts = append(ts, one("free-new-ptr", true, "$x := new(*%T)", func(t *Type) []*Use { return []*Use{free(useT(UNew, t, ""), CTOR), free(refT(t, SubOther), TONL)} }, true))
 	ts = append(ts, one("free-make", true, "$x := make([]%T, 1)", func(t *Type) []*Use { return []*Use{free(refT(t, SubOther), TONL)} }, true))
-	ts = append(ts, one("free-array", true, "$x := [2]%T{}", func(t *Type) []*Use { return []*Use{free(refT(t, SubOther), TONL)} }, true))
+	ts = append(ts, one("lit-array-of", false, "$x := [2]%T{}", func(t *Type) []*Use { return []*Use{composite(refT(t, SubLit))} }, true))
 	return ts
 }
 
@@ -708,9 +715,23 @@ func useTemplates() []Tmpl {
 		return []*Node{b.tstmt(x+" := func(v1 %T) {}", refT(t, SubParam)), b.stmt("_ = " + x)}
 	}})
 	// FREE for TONL (PKGO still demands): conversion-like mentions
-	ts = append(ts, Tmpl{Name: "free-slice-type", Cat: PKGO, FreeT: true, Make: func(b *B, t *Type, env *Env) []*Node {
+	ts = append(ts, Tmpl{Name: "decl-composite-types", Cat: TONL, Decl: true, Make: func(b *B, t *Type, env *Env) []*Node {
+		h := &Node{Pre: []*Line{b.line("type " + b.d("holdc") + " struct {")}, Kids: []*Node{b.tstmt("byName map[string]*%T", composite(refT(t, SubField)))}, Post: []*Line{b.line("}")}}
+		f1 := &Node{Fn: &Func{Name: b.d("fvariadic")}}
+		f1.Pre = []*Line{b.tl("func "+f1.Fn.Name+"(v1 ...%T) {", composite(refT(t, SubParam)))}
+		f1.Post = []*Line{b.line("}")}
+		f2 := &Node{Fn: &Func{Name: b.d("fchan")}}
+		f2.Pre = []*Line{b.tl("func "+f2.Fn.Name+"() chan %T {", composite(refT(t, SubResult)))}
+		f2.Kids = []*Node{b.stmt("return nil")}
+		f2.Post = []*Line{b.line("}")}
+		f3 := &Node{Fn: &Func{Name: b.d("ffunc")}}
+		f3.Pre = []*Line{b.tl("func "+f3.Fn.Name+"(v1 func(**%T) int) {", composite(refT(t, SubParam)))}
+		f3.Post = []*Line{b.line("}")}
+		return []*Node{h, f1, f2, f3}
+	}})
+	ts = append(ts, Tmpl{Name: "var-slice-of", Cat: PKGO, Make: func(b *B, t *Type, env *Env) []*Node {
 		x := b.v()
-		return []*Node{b.tstmt("var "+x+" []%T", free(refT(t, SubOther), TONL)), b.stmt("_ = " + x)}
+		return []*Node{b.tstmt("var "+x+" []%T", composite(refT(t, SubVar))), b.stmt("_ = " + x)}
 	}})
 	ts = append(ts, Tmpl{Name: "free-assert", Cat: PKGO, FreeT: true, Make: func(b *B, t *Type, env *Env) []*Node {
 		x := b.v()
